@@ -346,3 +346,38 @@ def return_slots(body, limit=6):
         if not grew:
             break
     return slots
+
+
+def base_path(body, op_or_place, limit=16):
+    """(root local, (field names…)) of the storage a reference operand designates, following
+    `&mut x.f`, `&(*r).g`, plain copies / moves of references and the parameter copies left by virtual
+    inlining (`self' = move tmp; tmp = &mut open_blocks`): `open_blocks.starts` is the same storage
+    whether it is reached directly or through an inlined method's `self`."""
+    pl = op_or_place.get("c") or op_or_place.get("m") if ("c" in op_or_place or "m" in op_or_place) else op_or_place
+    if pl is None or "l" not in pl:
+        return None, ()
+    l = pl["l"]
+    fields = tuple(e["f"] for e in pl["p"] if isinstance(e, dict) and "f" in e)
+    for _ in range(limit):
+        whole = [d for d in body.defs().get(l, []) if (d[0] == "call") or (d[0] == "stmt" and not d[3]["lhs"]["p"])]
+        if len(whole) == 1 and whole[0][0] == "call" and callee_matches(whole[0][3], r"Deref>?::deref$|DerefMut>?::deref_mut$|Vec::<T, A>::(as_slice|as_mut_slice)$|AsRef<.*>>::as_ref$") and whole[0][3]["args"]:
+            p2 = op_place(whole[0][3]["args"][0])
+            if p2 is None:
+                return l, fields
+            fields = tuple(e["f"] for e in p2["p"] if isinstance(e, dict) and "f" in e) + fields
+            l = p2["l"]
+            continue
+        if len(whole) != 1 or whole[0][0] != "stmt":
+            return l, fields
+        rv = whole[0][3]["rv"]
+        if rv["k"] in ("ref", "rawptr"):
+            p2 = rv["place"]
+        elif rv["k"] == "use" and op_place(rv["op"]) is not None:
+            p2 = op_place(rv["op"])
+            if not body.local_ty(p2["l"]).startswith("&") and not body.local_ty(l).startswith("&") and body.locals[l].get("user"):
+                return l, fields
+        else:
+            return l, fields
+        fields = tuple(e["f"] for e in p2["p"] if isinstance(e, dict) and "f" in e) + fields
+        l = p2["l"]
+    return l, fields
